@@ -237,6 +237,15 @@ def prefer_double_quote(string: str) -> str:
     return string
 
 
+class CellNames(tuple):
+    """co_cellvars + co_freevars which remembers where the free variables start."""
+
+    def __new__(cls, cellvars, freevars):
+        self = super().__new__(cls, tuple(cellvars) + tuple(freevars))
+        self.n_cellvars = len(cellvars)
+        return self
+
+
 def get_logical_instruction_at_offset(
     bytecode,
     offset: int,
@@ -329,9 +338,14 @@ def get_logical_instruction_at_offset(
 
             argval = arg
 
-            # create a localsplusnames table that resolves duplicates.
+            # create a localsplusnames table that resolves duplicates: a
+            # cell variable that is also a local shares the local's slot,
+            # a free variable always has its own.
+            n_cellvars = getattr(cells, "n_cellvars", len(cells or tuple()))
             localsplusnames = (varnames or tuple()) + tuple(
-                name for name in (cells or tuple()) if name not in varnames
+                name
+                for i, name in enumerate(cells or tuple())
+                if i >= n_cellvars or name not in varnames
             )
 
             if op in opc.CONST_OPS:
@@ -521,7 +535,7 @@ class Bytecode:
                 self.first_line = first_line
                 self._line_offset = first_line - co.co_firstlineno
             if opc.version_tuple > (2, 0):
-                self._cell_names = co.co_cellvars + co.co_freevars
+                self._cell_names = CellNames(co.co_cellvars, co.co_freevars)
                 pass
             pass
 
@@ -816,7 +830,7 @@ class Bytecode:
         the disassembled code object.
         """
         co = get_code_object(x)
-        cell_names = co.co_cellvars + co.co_freevars
+        cell_names = CellNames(co.co_cellvars, co.co_freevars)
         line_starts = dict(self.opc.findlinestarts(co))
         if first_line is not None:
             line_offset = first_line - co.co_firstlineno
